@@ -158,6 +158,8 @@ fn main() {
             mon::c07::judge(&c, &m, &mut out, &mut cov);
             ran += 1;
             bytes += c.data.len() as u64 + m.produced;
+            // one line per finished case: a shard that runs out of its time slot still counts
+            println!("miri-case done shard {} case {}", seed, i - 1);
             for v in &out.violations {
                 bad += 1;
                 println!("VIOLATION property=C07 replay=(miri shard {} case {}) {} :: {}", seed, i - 1, v.signature, v.detail);
